@@ -8,7 +8,7 @@ VERIF = os.path.dirname(os.path.dirname(os.path.abspath(__file__)))
 HARNESS = os.path.join(VERIF, "harness")
 
 # which properties get which extra job families
-MT_PROPS = {"C01": 1, "C02": 2, "C03": 3, "C05": 5, "C06": 6, "C08": 8, "C11": 11}
+MT_PROPS = {"C01": 1, "C02": 2, "C03": 3, "C05": 5, "C06": 6, "C08": 8, "C11": 11, "C12": 12, "C14": 14}
 MIRI_MT_PROPS = {"C01", "C03"}
 MIRI_ST_PROPS = {"C02", "C03", "C04", "C05", "C06", "C07", "C08", "C11"}
 ASAN_PROPS = {"C03", "C06", "C07"}
@@ -53,20 +53,20 @@ def jobs(pid, tier, seed, bins, Job, mix, miri_env):
             argv = [bins["release"], "pingpong", "--seed", str(mix(seed, pid, "pingpong", i) % 1_000_000_007), "--rounds", str(6_000_000 if quick else 400_000_000), "--runs", str(8 if quick else 64), "--budget-ms", str(15_000 if quick else 300_000)]
             out.append(Job(f"pingpong/{i}", argv, timeout=200 if quick else 900, tool="mt-native"))
     if pid in MIRI_MT_PROPS:
-        reps = 12 if quick else 48
+        reps = 12 if quick else 32
         for i in range(reps):
             s = mix(seed, pid, "miri-mt", i) % 1_000_000
             flags = f"-Zmiri-seed={s} -Zmiri-preemption-rate={[0.05, 0.1, 0.2, 0.3][i % 4]} -Zmiri-compare-exchange-weak-failure-rate=0.2 -Zmiri-address-reuse-cross-thread-rate=0.3"
             if not quick and i % 6 == 5:
                 flags += " -Zmiri-tree-borrows"
-            rounds = 8 if quick else 60
+            rounds = 8 if quick else 40
             argv = ["cargo", "+nightly", "miri", "run", "--offline", "--", "mt", "--small", "--no-probes", "--prop", str(n), "--rounds", str(rounds), "--seed", str(s)]
             if i % 2:
                 # failpoints in their yield-only form: no locks, no memory-ordering effect in Miri's model
                 argv += ["--failpoints", "100"]
             out.append(Job(f"miri-mt/{i}", argv, env=miri_env(flags), timeout=300 if quick else 3000, tool="miri"))
     if pid in MIRI_ST_PROPS:
-        reps = (6 if pid in MIRI_MT_PROPS else 12) if quick else 32
+        reps = (6 if pid in MIRI_MT_PROPS else 12) if quick else 24
         kinds = ST_KINDS.get(pid)
         for i in range(reps):
             s = mix(seed, pid, "miri-st", i) % 1_000_000
@@ -75,10 +75,12 @@ def jobs(pid, tier, seed, bins, Job, mix, miri_env):
                 flags += " -Zmiri-ignore-leaks"
             if not quick and i % 6 == 5:
                 flags += " -Zmiri-tree-borrows"
-            hist = 14 if quick else 150
+            hist = 14 if quick else 100
             argv = ["cargo", "+nightly", "miri", "run", "--offline", "--", "run", "--prop", str(n), "--small", "--histories", str(hist), "--max-ops", "24", "--seed", str(s), "--budget-ms", str(60_000 if quick else 900_000), "--stall-s", "150"]
             if kinds:
                 argv += ["--kind", kinds[i % len(kinds)]]
+            if pid == "C06":
+                argv.append("--no-panics")  # keep Miri's leak check meaningful
             out.append(Job(f"miri-st/{i}", argv, env=miri_env(flags), timeout=300 if quick else 3000, tool="miri"))
     if pid in ASAN_PROPS:
         # (C07 lets children panic; a destructor that unwinds may legitimately leak what is left)
@@ -95,12 +97,14 @@ def jobs(pid, tier, seed, bins, Job, mix, miri_env):
             argv = [bins["asan"], "run", "--prop", str(n), "--seed", str(mix(seed, pid, "asan-st", i)), "--histories", str(8000 if quick else 200_000), "--budget-ms", str(25_000 if quick else 500_000), "--no-poison"]
             if kinds:
                 argv += ["--kind", kinds[i % len(kinds)]]
+            if pid == "C06":
+                argv.append("--no-panics")  # keep LeakSanitizer meaningful
             out.append(Job(f"asan-st/{i}", argv, env=env, timeout=300 if quick else 1500, tool="asan"))
     if not quick and pid in VALGRIND_PROPS:
         for i in range(2):
-            argv = ["valgrind", "--error-exitcode=97", "--leak-check=full", "--errors-for-leak-kinds=definite", "--show-leak-kinds=definite", "-q", bins["release"], "run", "--prop", str(n), "--seed", str(mix(seed, pid, "vg", i)), "--histories", "2500", "--no-poison", "--budget-ms", "400000"]
+            argv = ["valgrind", "--error-exitcode=97", "--leak-check=full", "--errors-for-leak-kinds=definite", "--show-leak-kinds=definite", "-q", bins["release"], "run", "--prop", str(n), "--seed", str(mix(seed, pid, "vg", i)), "--histories", "20000", "--no-poison", "--no-panics", "--budget-ms", "400000"]
             out.append(Job(f"valgrind-st/{i}", argv, timeout=1500, tool="valgrind"))
-        argv = ["valgrind", "--error-exitcode=97", "--leak-check=full", "--errors-for-leak-kinds=definite", "--show-leak-kinds=definite", "-q", bins["release"], "mt", "--no-probes", "--prop", str(n), "--seed", str(mix(seed, pid, "vg-mt")), "--rounds", "300", "--budget-ms", "400000"]
+        argv = ["valgrind", "--error-exitcode=97", "--leak-check=full", "--errors-for-leak-kinds=definite", "--show-leak-kinds=definite", "-q", bins["release"], "mt", "--no-probes", "--prop", str(n), "--seed", str(mix(seed, pid, "vg-mt")), "--rounds", "3000", "--budget-ms", "400000"]
         out.append(Job("valgrind-mt/0", argv, timeout=1500, tool="valgrind"))
     if not quick and pid in TSAN_PROPS:
         env = dict(os.environ, TSAN_OPTIONS=f"suppressions={os.path.join(VERIF, 'tsan.supp')}:halt_on_error=0:exitcode=66:report_signal_unsafe=0")
